@@ -21,7 +21,7 @@ from bumble.core import PhysicalTransport
 ASSUMPTIONS = [
     'OOB counts as MITM-protected; keys are compared by value (DESIGN 3.0)',
     'system level: deterministic clock/randomness (vf/detenv.py), so the FFI crypto sees concrete inputs; every path is one concrete configuration chosen by solver forks',
-    'key-distribution masks: default (all) only; delays beyond FIFO order are outside',
+    'key-distribution masks: default, plus three asymmetric initiator offers (system_pairing_key_distribution); delays beyond FIFO order are outside',
     'Table 2.8 transcription in this file is the oracle for the association model',
 ]
 K = ('bumble.smp.Session.decide_pairing_method', 'bumble.smp.Session.on_pairing', 'bumble.smp.Manager.on_pairing', 'bumble.device.Device.encrypt',
@@ -235,9 +235,18 @@ def _settle(loop, n=3000):
             break
 
 
+_KD = PairingDelegate.KeyDistribution
+_KDS = [None, (_KD.DISTRIBUTE_ENCRYPTION_KEY, _KD.DISTRIBUTE_ENCRYPTION_KEY | _KD.DISTRIBUTE_IDENTITY_KEY),
+        (_KD.DISTRIBUTE_ENCRYPTION_KEY | _KD.DISTRIBUTE_IDENTITY_KEY, _KD.DISTRIBUTE_ENCRYPTION_KEY),
+        (_KD.DISTRIBUTE_ENCRYPTION_KEY | _KD.DISTRIBUTE_SIGNING_KEY, _KD.DISTRIBUTE_IDENTITY_KEY)]
+
+
 class _Delegate(PairingDelegate):
-    def __init__(self, io, answer, shared):
-        super().__init__(io)
+    def __init__(self, io, answer, shared, kd=None):
+        if kd is None:
+            super().__init__(io)
+        else:
+            super().__init__(io, local_initiator_key_distribution=kd[0], local_responder_key_distribution=kd[1])
         self.answer, self.shared = answer, shared       # answer: 0 accept, 1 reject, 2 wrong passkey / "numbers differ"
 
     async def accept(self):
@@ -296,13 +305,13 @@ def _two_devices(loop):
     return devs, t.result()
 
 
-def _pairing_run(io_a, io_b, sc_a, sc_b, mitm_a, mitm_b, bond_a, bond_b, ans_a, ans_b):
+def _pairing_run(io_a, io_b, sc_a, sc_b, mitm_a, mitm_b, bond_a, bond_b, ans_a, ans_b, kd=0):
     """returns a dict describing how the pairing ended on both sides"""
     detenv.reset()
     with detloop.running() as loop:
         devs, conn = _two_devices(loop)
         shared = {}
-        devs[0].pairing_config_factory = lambda c: PairingConfig(sc=sc_a, mitm=mitm_a, bonding=bond_a, delegate=_Delegate(_IOS[io_a], ans_a, shared))
+        devs[0].pairing_config_factory = lambda c: PairingConfig(sc=sc_a, mitm=mitm_a, bonding=bond_a, delegate=_Delegate(_IOS[io_a], ans_a, shared, _KDS[kd]))
         devs[1].pairing_config_factory = lambda c: PairingConfig(sc=sc_b, mitm=mitm_b, bonding=bond_b, delegate=_Delegate(_IOS[io_b], ans_b, shared))
         peer_conn = list(devs[1].connections.values())[0]
         ends = {'a': [], 'b': []}
@@ -330,12 +339,13 @@ def _expected_method(io_a, io_b, sc, mitm):
 @harness(pre=['0 <= io_b <= 4 and 0 <= ans <= 3 and 0 <= who <= 1'], family='system-pairing', kernels=K, timeout=(240, 900), twin=True,
          grids=[(('quick',), {'io_a': [0, 1, 2, 3, 4], 'sc_a': [0, 1], 'sc_b': [1], 'mitm': [1], 'bond_a': [1], 'bond_b': [1]}),
                 (('quick',), {'io_a': [1, 3], 'sc_a': [1], 'sc_b': [1], 'mitm': [0], 'bond_a': [0, 1], 'bond_b': [0, 1]}),
-                (('thorough',), {'io_a': [0, 1, 2, 3, 4], 'sc_a': [0, 1], 'sc_b': [0, 1], 'mitm': [0, 1, 2], 'bond_a': [0, 1], 'bond_b': [0, 1]})],
-         bounds='two full stacks: initiator IO (per condition) x responder IO (symbolic) x SC on each side x MITM {none, both, initiator only} x bonding on each side x user answer {accept, reject, wrong passkey / numbers differ, late reject} given by the initiator or the responder (symbolic): pairing never hangs; both sides end the same way; on success the link is encrypted on both ends, the stored keys have equal values and authenticated == (prescribed method != Just Works); on failure nothing is stored')
+                (('quick',), {'io_a': [1, 4], 'sc_a': [0, 1], 'sc_b': [1], 'mitm': [2, 3], 'bond_a': [1], 'bond_b': [1]}),
+                (('thorough',), {'io_a': [0, 1, 2, 3, 4], 'sc_a': [0, 1], 'sc_b': [0, 1], 'mitm': [0, 1, 2, 3], 'bond_a': [0, 1], 'bond_b': [0, 1]})],
+         bounds='two full stacks: initiator IO (per condition) x responder IO (symbolic) x SC on each side x MITM {none, both, initiator only, responder only} x bonding on each side x user answer {accept, reject, wrong passkey / numbers differ, late reject} given by the initiator or the responder (symbolic): pairing never hangs; both sides end the same way; on success the link is encrypted on both ends, the stored keys have equal values and authenticated == (prescribed method != Just Works); on failure nothing is stored')
 def system_pairing(io_b: int, ans: int, who: int, io_a: int, sc_a: int, sc_b: int, mitm: int, bond_a: int, bond_b: int) -> bool:
     io_b, ans, who = C(io_b, 0, 4), C(ans, 0, 3), C(who, 0, 1)
     with untraced():
-        mitm_a, mitm_b = (mitm >= 1), (mitm == 1)
+        mitm_a, mitm_b = (mitm in (1, 2)), (mitm in (1, 3))
         r = _pairing_run(io_a, io_b, bool(sc_a), bool(sc_b), mitm_a, mitm_b, bool(bond_a), bool(bond_b), ans if who == 0 else 0, ans if who == 1 else 0)
         if not r['done']:
             return False                               # pairing hangs
@@ -365,6 +375,18 @@ def system_pairing(io_b: int, ans: int, who: int, io_a: int, sc_a: int, sc_b: in
         if 'ok' in ends['b'] or 'ok' in ends['a']:
             return False
         return r['ka'] is None and r['kb'] is None
+
+
+@harness(pre=['0 <= io_b <= 4 and 1 <= kd <= 3'], family='system-pairing', kernels=K + ('bumble.smp.Session.distribute_keys', 'bumble.smp.Session.check_key_distribution'), timeout=(240, 900), twin=True,
+         grids=[(('quick',), {'sc': [0, 1], 'io_a': [3]}), (('thorough',), {'sc': [0, 1], 'io_a': [1, 3]})],
+         bounds='two full stacks with bonding, the initiator offering asymmetric key-distribution masks (ENC / ENC+ID, ENC+ID / ENC, ENC+SIGN / ID; symbolic choice), legacy and SC, responder IO symbolic: pairing completes on both sides (nobody waits for a key the other side was not asked to send), the link is encrypted and both store keys')
+def system_pairing_key_distribution(io_b: int, kd: int, sc: int, io_a: int) -> bool:
+    io_b, kd = C(io_b, 0, 4), C(kd, 1, 3)
+    with untraced():
+        r = _pairing_run(io_a, io_b, bool(sc), bool(sc), False, False, True, True, 0, 0, kd)
+        if not r['done'] or r['exc'] is not None:
+            return False
+        return r['ends']['b'] == ['ok'] and r['enc_a'] and r['enc_b'] and r['ka'] is not None and r['kb'] is not None
 
 
 _flags.int_format_placeholder = True
